@@ -28,9 +28,95 @@ def group_theorem(run):
             res.cleanup()
 
 
+def law_monitors(run):
+    """The theorems the model satisfies (T1, T2) imposed as laws on executions with GENERIC float operands, in particular rotations far smaller
+    and translations far larger / smaller than any lattice point: matrix homomorphism, two-sided inverse, associativity, a (-) b = b^-1 (+) a,
+    point action = matrix action, boxplus = oplus with the pose built from the increment.  (Numeric closeness is judged here, TLC has no reals: L3.)"""
+    import math
+    import random
+    from graphslam.pose.r2 import PoseR2
+    from graphslam.pose.r3 import PoseR3
+    from graphslam.pose.se2 import PoseSE2
+    from graphslam.pose.se3 import PoseSE3
+    rnd = random.Random(run.seed + 101)
+    n_runs = 4000 if run.tier == 'thorough' else 600
+
+    def ang():
+        return rnd.choice([-1, 1]) * 10 ** rnd.uniform(-9, math.log10(math.pi))
+
+    def mag():
+        return rnd.choice([-1, 1]) * 10 ** rnd.uniform(-6, 4)
+
+    def rp(kind):
+        if kind == 'SE2':
+            return PoseSE2([mag(), mag()], ang())
+        if kind == 'SE3':
+            ax = np.array([rnd.gauss(0, 1) for _ in range(3)])
+            ax /= np.linalg.norm(ax)
+            th = ang()
+            return PoseSE3([mag(), mag(), mag()], list(ax * math.sin(th / 2)) + [math.cos(th / 2)])
+        return (PoseR2 if kind == 'R2' else PoseR3)([mag() for _ in range(B.DIM[kind])])
+
+    def close(x, y, scale):
+        x, y = np.asarray(x, dtype=float), np.asarray(y, dtype=float)
+        return x.shape == y.shape and float(np.max(np.abs(x - y))) <= 1e-9 * scale
+
+    def same_motion(p, q, scale):
+        if type(p) is not type(q):
+            return False
+        if isinstance(p, PoseSE3):
+            return close(np.asarray(p)[:3], np.asarray(q)[:3], scale) and (close(np.asarray(p)[3:], np.asarray(q)[3:], 1.0) or close(np.asarray(p)[3:], -np.asarray(q)[3:], 1.0))
+        if isinstance(p, PoseSE2):
+            d = (p[2] - q[2] + math.pi) % (2 * math.pi) - math.pi
+            return close(np.asarray(p)[:2], np.asarray(q)[:2], scale) and abs(d) <= 1e-9
+        return close(p, q, scale)
+    for n in range(n_runs):
+        kind = ('SE3', 'SE2', 'SE3', 'R3', 'SE2', 'R2')[n % 6]
+        a, b, c = rp(kind), rp(kind), rp(kind)
+        scale = 1.0 + max(float(np.max(np.abs(np.asarray(x)[:B.DIM[kind]]))) for x in (a, b, c)) * 3
+        key = dict(part='law-monitor', k=kind)
+        laws = []
+        try:
+            ident = type(a).identity()
+            laws.append(('a+inverse', same_motion(a + a.inverse, ident, scale)))
+            laws.append(('inverse+a', same_motion(a.inverse + a, ident, scale)))
+            laws.append(('associativity', same_motion((a + b) + c, a + (b + c), scale * scale if False else scale * 3)))
+            laws.append(('ominus', same_motion(a - b, b.inverse + a, scale * 3)))
+            laws.append(('b+(a-b)', same_motion(b + (a - b), a, scale * 3)))
+            pt = np.array([mag() for _ in range(B.DIM[kind])])
+            laws.append(('action', close(np.asarray((a + b) + pt), np.asarray(a + (b + pt)), scale * 3 + float(np.max(np.abs(pt))) * 3)))
+            if hasattr(a, 'to_matrix'):
+                laws.append(('homomorphism', close((a + b).to_matrix(), a.to_matrix() @ b.to_matrix(), scale * 3)))
+                hp = np.append(pt, 1.0)
+                laws.append(('matrix-action', close(np.asarray(a + pt), (a.to_matrix() @ hp)[:-1], scale + float(np.max(np.abs(pt))) * 3)))
+            # boxplus = oplus with the pose whose compact form is the increment
+            if kind == 'SE3':
+                v = np.array([rnd.gauss(0, 1) for _ in range(3)])
+                v = v / np.linalg.norm(v) * 10 ** rnd.uniform(-9, -0.05)
+                d = np.array([mag(), mag(), mag(), v[0], v[1], v[2]])
+                laws.append(('boxplus', same_motion(a + d, a + PoseSE3(d[:3], list(v) + [math.sqrt(1.0 - float(v @ v))]), scale * 3)))
+            elif kind == 'SE2':
+                d = np.array([mag(), mag(), ang()])
+                laws.append(('boxplus', same_motion(a + d, a + PoseSE2(d[:2], d[2]), scale * 3)))
+            else:
+                d = np.array([mag() for _ in range(B.DIM[kind])])
+                laws.append(('boxplus', same_motion(a + d, a + type(a)(d), scale * 3)))
+        except Exception as ex:  # noqa
+            run.violation(dict(key, law='exception'), 'exception %r with generic operands %r %r' % (ex, np.asarray(a).tolist(), np.asarray(b).tolist()), dict(a=np.asarray(a).tolist(), b=np.asarray(b).tolist()))
+            continue
+        run.count(key=('law', n), nontrivial=True)
+        for name, ok in laws:
+            if not ok:
+                run.violation(dict(key, law=name), 'law %s fails for generic operands a=%r b=%r c=%r' % (name, np.asarray(a).tolist(), np.asarray(b).tolist(), np.asarray(c).tolist()),
+                              dict(a=np.asarray(a).tolist(), b=np.asarray(b).tolist(), c=np.asarray(c).tolist()))
+                break
+    run.notes['law_monitor_runs_on_generic_floats'] = n_runs
+
+
 def check(run, cases=None):
     if cases is None:
         group_theorem(run)
+        law_monitors(run)
     cases = cases if cases is not None else PC.gen_cases(run.tier, run.seed)
     old = EC.headroom_class
     EC.headroom_class = PC.headroom_class
@@ -44,6 +130,22 @@ def check(run, cases=None):
     for c, obs in pairs:
         k = c['k']
         S = PC.scale_of(c)
+        if c.get('lite'):
+            # only the composition is evaluated by the model (tiny right-operand rotation, see posecases)
+            a, b = B.pose(k, c['ta'], c['ra']), B.pose(k, c['tb'], c['rb'])
+            run.replayed += 1
+            run.count(key=(k, tuple(c['ta']), tuple(c['ra']), tuple(c['tb']), tuple(c['rb'])), nontrivial=True)
+            try:
+                res = a + b
+                dt, dr, _ = PC.pose_dev(res, obs['comp'])
+            except Exception as ex:  # noqa
+                run.violation(dict(k=k, op='a+b', tiny_rotation=True), 'exception %r | case %r' % (ex, c), dict(case=c))
+                continue
+            run.dev(max(dt / S, dr))
+            if not (dt <= TOL * 50 * S and dr <= TOL * 50):
+                run.violation(dict(k=k, op='a+b', tiny_rotation=True), 'a+b with a tiny rotation as right operand: deviation translation %.3g rotation %.3g, result %r | case %r' % (
+                    dt, dr, np.asarray(res).tolist(), c), dict(case=c, expected=obs['comp']))
+            continue
         a, b, cc = B.pose(k, c['ta'], c['ra']), B.pose(k, c['tb'], c['rb']), B.pose(k, c['tc'], c['rc'])
         a0, b0 = np.array(a), np.array(b)
         key = dict(k=k)
@@ -86,7 +188,8 @@ def check(run, cases=None):
                 run.violation(dict(key, op=name), '%s: deviation translation %.3g rotation %.3g (tol %.3g) result %r | case %r' % (name, dt, dr, TOL * 50 * S, np.asarray(res).tolist() if hasattr(res, '__len__') else res, c),
                               dict(case=c, expected=exp))
         # point action: pose (+) PoseRn and pose (+) ndarray
-        for name, arg in (('a+PoseRn', PtCls(pt)), ('a+ndarray(point)', pt)):
+        int_pt = np.array([int(x) for x in c['pt']], dtype=np.int64)          # an integer-dtype array is a legal operand as well
+        for name, arg in (('a+PoseRn', PtCls(pt)), ('a+ndarray(point)', pt), ('a+ndarray(int point)', int_pt)):
             if k in ('R2', 'R3') and name == 'a+PoseRn':
                 pass
             try:
@@ -100,6 +203,16 @@ def check(run, cases=None):
             run.dev(dv / S)
             if not (dv <= TOL * 50 * S and okt):
                 run.violation(dict(key, op=name), '%s: got %r (%s), exact %r | case %r' % (name, np.asarray(res).tolist(), type(res).__name__, exp.tolist(), c), dict(case=c))
+        # boxplus with an integer-dtype increment (pure translation increment: rotation part zero)
+        idelta = np.array([int(x) for x in c['dt']] + [0] * (B.CDIM[k] - B.DIM[k]), dtype=np.int64)
+        try:
+            r_int = a + idelta
+            r_flt = a + idelta.astype(float)
+            if not np.allclose(np.asarray(r_int, dtype=float), np.asarray(r_flt, dtype=float), rtol=0, atol=TOL * 50 * S) or type(r_int) is not type(r_flt):
+                run.violation(dict(key, op='boxplus(int increment)'), 'a [+] integer-dtype increment %r gives %r, with the same float increment %r | case %r' % (
+                    idelta.tolist(), np.asarray(r_int).tolist(), np.asarray(r_flt).tolist(), c), dict(case=c))
+        except Exception as ex:  # noqa
+            run.violation(dict(key, op='boxplus(int increment)'), 'exception %r | case %r' % (ex, c), dict(case=c))
         # matrix form and homomorphism
         if hasattr(a, 'to_matrix'):
             Ma, Mb, Mab = a.to_matrix(), b.to_matrix(), (a + b).to_matrix()
